@@ -1785,7 +1785,11 @@ func c14r11(c *Ctx, r *Report) {
 				onSpec := false
 				for w := range backwardSlice(call.Call.Args[0], nil, nil) {
 					if u, ok := w.(*ssa.UnOp); ok && u.Op == token.MUL && isSpecCell(u.X.Type()) {
-						onSpec = true
+						// the variable itself (nextCommand), not the command field of a request
+						switch u.X.(type) {
+						case *ssa.Alloc, *ssa.FreeVar:
+							onSpec = true
+						}
 					}
 				}
 				// ... or the command of a search request that is still in the event box
